@@ -21,7 +21,7 @@ Definition pop : parser op :=
   | 6 => p <- pnat ;; b <- pbool ;; pret (OFitTilt p b)
   | 7 => p <- pnat ;; pret (OCopy p)
   | 8 => p <- pnat ;; pret (ORescale p)
-  | 9 => pret OWave
+  | 9 => t <- popt (ppair pZ pZ) ;; pret (OWave t)
   | 10 => p <- pnat ;; w <- pnat ;; pret (OMul p w)
   | 11 => w <- pnat ;; z <- pZ ;; ks <- plist pkey ;; pret (OPropDft w z ks)
   | 12 => w <- pnat ;; s <- popt pnat ;; pret (OPropFft w s)
@@ -36,6 +36,8 @@ Definition pop : parser op :=
   | 21 => s <- pnat ;; b <- pbool ;; pret (OSpecTo s b)
   | 22 => s <- pnat ;; pret (OSpecTrim s)
   | 23 => s <- pnat ;; w <- pnat ;; pret (OSpecResample s w)
+  | 24 => p <- pnat ;; k <- pnat ;; pret (OPokeAttr p k)
+  | 25 => w <- pnat ;; x <- pZ ;; y <- pZ ;; pret (OMulTilt w (x, y))
   | _ => pfail
   end.
 
